@@ -17,9 +17,10 @@
   3. `C02_purge_exit_enabled`: purge never waits for ever on the counters.
   4. `C02_progress` (no reachable deadlock, needs `1 ≤ c` for a bounded queue),
      `C02_terminates`, `C02_run_bounded` (every schedule is finite: at most `Col.mu s` steps).
-  5. `C02_purgeGet_dead`: in this model the purge loop never finds anything in the queue
-     (the collector thread leaves only when the queue is empty and by then no task can put),
-     i.e. the purge is a pure safety net here.
+  5. `C02_purgeGet_live`: the collector thread may leave while a batch is still queued (it
+     sees the queue empty, then the stop flag; a batch can land in between); the purge loop
+     then collects it: in phase `purge` with a non-empty queue, `purgeGet` of the head entry's
+     source is enabled (and `C02_purge_counts`: once the queue is empty the counters agree).
 -/
 import SkModel.Proofs.CollectInv
 
@@ -71,7 +72,7 @@ theorem C02_inv_counts (hM : 1 ≤ MAXB) {ls : List CLbl} {s : CState α}
       = ((List.range n).map (fun t => if (s.tasks t).finished then (seq t).length else 0)).sum ∧
     (∀ t, t < n → (s.tasks t).finished = true → (s.tasks t).remaining = []) ∧
     (s.phase ≠ .waiting → ∀ t, t < n → (s.tasks t).finished = true) ∧
-    (s.phase = .purge ∨ s.phase = .returned → s.queue = []) ∧
+    (s.phase = .returned → s.queue = []) ∧
     (∀ t, t < n → (s.tasks t).total = (seq t).length) ∧
     s.ntasks = n ∧ s.cap = cap := by
   have hi := C02_Inv hM hr
@@ -83,7 +84,7 @@ theorem C02_final (hM : 1 ≤ MAXB) {ls : List CLbl} {s : CState α}
     (hr : crun (CState.init cap FLUSH MAXB n seq) ls = some s) (hp : s.phase = .returned) :
     s.queue = [] ∧ ∀ src, s.collected src = (if src < n then seq src else []) := by
   have hi := C02_Inv hM hr
-  have hq := hi.drained (Or.inr hp)
+  have hq := hi.drained hp
   exact ⟨hq, collected_all hi (hi.phase (by rw [hp]; simp)) hq⟩
 
 /-! ### 3. the purge loop can leave -/
@@ -94,25 +95,21 @@ theorem C02_purge_exit_enabled (hM : 1 ≤ MAXB) {ls : List CLbl} {s : CState α
   have hi := C02_Inv hM hr
   exact Nat.le_of_eq (counts_agree hi (hi.phase (by rw [hp]; simp)) hq)
 
-/-- indeed the two counters agree, and the queue is empty throughout the purge -/
+/-- indeed the two counters agree as soon as the purge has emptied the queue -/
 theorem C02_purge_counts (hM : 1 ≤ MAXB) {ls : List CLbl} {s : CState α}
     (hr : crun (CState.init cap FLUSH MAXB n seq) ls = some s) (hp : s.phase = .purge) :
-    s.queue = [] ∧ s.expected = s.ncollected := by
+    s.queue = [] → s.expected = s.ncollected := by
+  intro hq
   have hi := C02_Inv hM hr
-  have hq := hi.drained (Or.inl hp)
-  exact ⟨hq, counts_agree hi (hi.phase (by rw [hp]; simp)) hq⟩
+  exact counts_agree hi (hi.phase (by rw [hp]; simp)) hq
 
-/-- in the model the purge loop never takes anything: `purgeGet` is never enabled -/
-theorem C02_purgeGet_dead (hM : 1 ≤ MAXB) {ls : List CLbl} {s : CState α}
-    (hr : crun (CState.init cap FLUSH MAXB n seq) ls = some s) (src : Nat) :
-    cstep s (.purgeGet src) = none := by
-  have hi := C02_Inv hM hr
-  simp only [cstep]
-  split
-  · rename_i hp
-    rw [hi.drained (Or.inl hp)]
-    simp [takeFirst]
-  · rfl
+/-- the collector thread may have left with batches still queued; the purge loop can always
+    take the oldest one: `purgeGet` of the head entry's source is enabled -/
+theorem C02_purgeGet_live (_hM : 1 ≤ MAXB) {ls : List CLbl} {s : CState α}
+    (_hr : crun (CState.init cap FLUSH MAXB n seq) ls = some s) (hp : s.phase = .purge)
+    {src : Nat} {b : List α} {q : List (Nat × List α)} (hq : s.queue = (src, b) :: q) :
+    (cstep s (.purgeGet src)).isSome := by
+  simp only [cstep, hp, if_true, hq, takeFirst_head, Option.isSome_some]
 
 /-! ### 4. no deadlock, every schedule terminates -/
 
@@ -191,7 +188,8 @@ theorem C02_demo_init_eq (cap : Option Nat) : C02_demo_init cap = C02_demo_init'
   | _ + 2 => simp [C02_demo_seq, flushBatches, flushBatchesGo, chunks]
 
 /-- task 0 puts its last batch, both tasks finish and the main thread tells the collector to
-    stop while that batch is still queued; the collector drains it before leaving -/
+    stop while that batch is still queued; here the collector drains it before leaving (it
+    need not: see `C02_demo_sched_late`) -/
 def C02_demo_sched : List CLbl :=
   [.put 0, .threadGet 0, .put 1, .finish 1, .threadGet 1, .put 0, .finish 0,
    .stopThread, .threadGet 0, .threadExit, .purgeExit]
@@ -216,8 +214,29 @@ example : (crun (C02_demo_init none)
     = some ⟨.returned, [], [1, 2, 3], [4, 5], 5, 5⟩ := by
   rw [C02_demo_init_eq]; decide
 
-/-- `purgeGet` is refused even in phase `purge` (the queue is empty there) -/
+/-- in this run the collector drained the queue before leaving, so `purgeGet` finds nothing
+    (it is refused on an empty queue) -/
 example : (crun (C02_demo_init (some 1)) (C02_demo_sched.take 10 ++ [.purgeGet 0])).map C02_obs = none := by
+  rw [C02_demo_init_eq]; decide
+
+/-- the collector leaves right after `stopThread` while task 0's last batch is still queued;
+    the purge collects it and only then returns -/
+def C02_demo_sched_late : List CLbl :=
+  [.put 0, .threadGet 0, .put 1, .finish 1, .threadGet 1, .put 0, .finish 0,
+   .stopThread, .threadExit, .purgeGet 0, .purgeExit]
+
+example : (crun (C02_demo_init (some 1)) C02_demo_sched_late).map C02_obs
+    = some ⟨.returned, [], [1, 2, 3], [4, 5], 5, 5⟩ := by
+  rw [C02_demo_init_eq]; decide
+
+/-- the state just after `threadExit`: phase `purge`, one batch still queued, counters differ -/
+example : (crun (C02_demo_init (some 1)) (C02_demo_sched_late.take 9)).map C02_obs
+    = some ⟨.purge, [(0, [3])], [1, 2], [4, 5], 4, 5⟩ := by
+  rw [C02_demo_init_eq]; decide
+
+/-- there `purgeExit` is refused (queue not empty, counters not yet equal) -/
+example : (crun (C02_demo_init (some 1)) (C02_demo_sched_late.take 9 ++ [.purgeExit])).map C02_obs
+    = none := by
   rw [C02_demo_init_eq]; decide
 
 end Sk
@@ -232,7 +251,7 @@ end Sk
 #print axioms Sk.C02_final
 #print axioms Sk.C02_purge_exit_enabled
 #print axioms Sk.C02_purge_counts
-#print axioms Sk.C02_purgeGet_dead
+#print axioms Sk.C02_purgeGet_live
 #print axioms Sk.C02_progress
 #print axioms Sk.C02_terminates
 #print axioms Sk.C02_run_bounded
